@@ -46,9 +46,10 @@ func NewMessage(spec *MessageSpec) *Message {
 	fields := spec.CreateMessageFields()
 
 	return &Message{
-		fields:    fields,
-		spec:      spec,
-		fieldsMap: map[int]struct{}{},
+		fields: fields,
+		spec:   spec,
+		// the bitmap field is part of every message
+		fieldsMap: map[int]struct{}{bitmapIdx: {}},
 	}
 }
 
@@ -549,9 +550,11 @@ func (m *Message) unsetField(id int) {
 		if fieldSpec, ok := m.GetSpec().Fields[id]; ok {
 			m.fields[id] = createMessageField(fieldSpec)
 		}
-		// the cached bitmap is the field object that has just been replaced
+		// the cached bitmap is the field object that has just been replaced;
+		// the bitmap field itself stays part of the message
 		if id == bitmapIdx {
 			m.cachedBitmap = nil
+			m.fieldsMap[bitmapIdx] = struct{}{}
 		}
 	}
 }
